@@ -14,6 +14,7 @@ import (
 
 	"verifharness/internal/report"
 	"verifharness/internal/schema"
+	"verifharness/internal/tree"
 )
 
 var (
@@ -152,7 +153,20 @@ func planCase(ctx *Ctx, s *schema.Schema, tg planTarget, x reflect.Value, confor
 		arg = x.Interface()
 	}
 	impl, b := marshalGuard(arg, tg.tag)
-	ctx.Add(line, impl, true, "C01,C05,C06,C14")
+	ctx.Add(line, impl, true, "C01,C03,C05,C06,C14")
+	if b != nil {
+		// ---- C03 oracle on typed output (KMIP messages, payloads, objects, attribute values; bit masks only
+		// exist here): the independent strict parser accepts the bytes, and the library's generic decoder reads
+		// the same tree from them.
+		if tr, err := tree.Decode(b); err != nil {
+			ctx.Res.Violate(report.Violation{Property: "C03", Oracle: "independent-parse", Key: "plan:not-wellformed:" + err.Error(), Detail: "independent parser rejects the encoding of a " + s.Dyns[tg.dyn].GoType + ": " + err.Error() + " bytes=" + hexUp(b[:min(len(b), 4096)]), Line: line})
+		} else {
+			ctx.Res.Count("plan.enc.strict-ok")
+			if g, _ := decodeGeneric(append([]byte{}, b...)); g != "ok "+tr.Render() {
+				ctx.Res.Violate(report.Violation{Property: "C03", Oracle: "converse", Key: "plan:wellformed-differs", Detail: "the generic decoder does not read the typed encoding as the tree the independent parser reads", Line: line})
+			}
+		}
+	}
 	if b == nil {
 		if conforming {
 			ctx.Res.Violate(report.Violation{Property: "C01", Oracle: "encoder-total", Key: "plan:encoder-panic", Detail: "MarshalTTLV panicked on a conforming value", Line: line})
